@@ -243,3 +243,21 @@ c10_fn_in_cmp!(c10_value_in_cmp, |sc, arg, t2| Mini::Int(7), TestFunction::Value
 
 // (a no-panic harness for prepare_regex was tried: `str::contains` goes through core's SIMD
 // substring search, no verdict in 400 s.)
+// length of a string literal argument: length("<1 ASCII byte><1 two-byte scalar>") == 2
+proof!(c10_length_literal_in_cmp, 8, {
+    let root = Mini::Null;
+    let node = Mini::Null;
+    let c: i64 = any_ijson();
+    let mut buf = [0u8; 4];
+    sym_scalar(&mut buf, 0, 1);
+    sym_scalar(&mut buf, 1, 2);
+    let mut arg = mfn_lit(Literal::String(String::from(str_over(&buf, 3))));
+    let tf = TestFunction::Length(unsafe { Box::from_raw(&mut arg as *mut MFnLit as *mut FnArg) });
+    let mut cmp = MCmp { tag: OP_EQ, a: mc_fn(tf), b: mc_lit(Literal::Int(c)) };
+    let r = as_cmp(&cmp).process(State::data(&root, Data::Ref(Pointer::new(&node, String::from("p")))));
+    let got = matches!(r.data, Data::Value(Mini::Bool(true)));
+    assert!(got == (c == 2), "length of a two-scalar string literal must be 2 (scalars, not bytes)");
+    kani::cover!(got, "c == 2");
+    forget(r);
+    forget(cmp);
+});
